@@ -916,7 +916,7 @@ class Interp:
     def load_attr(self, obj, attr, node):
         if isinstance(obj, TypeV) and obj.name == "dict" and attr == "fromkeys":
             return Builtin("dict.fromkeys")
-        if isinstance(obj, SetObj) and attr in ("add", "pop", "discard", "remove", "update", "union"):
+        if isinstance(obj, SetObj) and attr in ("add", "pop", "discard", "remove", "update", "union", "intersection", "difference"):
             return BoundMethod(obj, attr)
         if isinstance(obj, ListObj) and attr in ("append", "pop", "extend", "insert", "sort", "reverse", "clear", "remove"):
             return BoundMethod(obj, attr)
@@ -1183,6 +1183,19 @@ class Interp:
                 if args[0] in obj.items:
                     obj.items.remove(args[0])
                 return NONE
+            if name in ("update", "union", "intersection", "difference") and len(args) == 1:
+                seq = _concrete_seq(args[0])
+                if seq is not None:
+                    if name == "update":
+                        for x in seq:
+                            if x not in obj.items:
+                                obj.items.append(x)
+                        return NONE
+                    if name == "union":
+                        return SetObj(obj.items + seq)
+                    if name == "intersection":
+                        return SetObj([x for x in obj.items if x in seq])
+                    return SetObj([x for x in obj.items if x not in seq])
             raise Unsupported(node, "set method %s" % name)
         if isinstance(obj, DictObj):
             if name == "update" and len(args) == 1 and isinstance(args[0], DictObj):
